@@ -65,11 +65,11 @@ theorem Win.avoidP {lo hi : Nat} {bad : Nat → Prop} {Δ : Env} (h : Win lo hi 
 /-- `e'` — and every tree obtained from it by replacing nested blocks with blocks that erase to them —
     erases to `e` in every environment extending the context -/
 def Er (cx : Cx) (lo hi : Nat) (e' e : Node) : Prop :=
-  ∀ e'', BRg e' e'' → ∀ σ, cx.ext σ → ∃ X Δ, erase σ e'' = (X, Δ ++ σ) ∧ Sim X e ∧ Win lo hi Δ
+  ∀ e'', BRg e' e'' → ∀ σ, cx.ext σ → ∃ X Δ, erase σ e'' = (X, Δ ++ σ) ∧ ESim X e ∧ Win lo hi Δ
 
 /-- the context-free form: in every environment -/
 def ErAll (lo hi : Nat) (e' e : Node) : Prop :=
-  ∀ e'', BRg e' e'' → ∀ σ, ∃ X Δ, erase σ e'' = (X, Δ ++ σ) ∧ Sim X e ∧ Win lo hi Δ
+  ∀ e'', BRg e' e'' → ∀ σ, ∃ X Δ, erase σ e'' = (X, Δ ++ σ) ∧ ESim X e ∧ Win lo hi Δ
 
 theorem ErAll.er {lo hi : Nat} {e' e : Node} (h : ErAll lo hi e' e) (cx : Cx) : Er cx lo hi e' e :=
   fun e'' hb σ _ => h e'' hb σ
